@@ -21,6 +21,10 @@ ASSUMPTIONS = [
 
 def kind_of(f):
     o = f[-1]
+    if f[0] == "Pc":
+        return "Pc:procs=%s:%s" % (f[7], "ok" if "+" not in o and "X:" not in o else "MIXED")
+    if f[0] == "Ps":
+        return "Ps:%s:%s" % (f[7][0], o[:2] if o[0] == "C" else o.split(":")[0])
     if f[0] == "P":
         return "P:%s:%s" % (f[6][0], o[:2] if o[0] == "C" else o.split(":")[0])
     if f[0] in ("A", "O"):
@@ -30,6 +34,10 @@ def kind_of(f):
 
 def nontrivial(f):
     o = f[-1]
+    if f[0] == "Pc":
+        return True
+    if f[0] == "Ps":
+        return not f[1].endswith(".0")
     if f[0] == "P":
         return f[6] != "A" and not o.startswith("err:")
     if f[0] == "A":
@@ -50,8 +58,12 @@ def run(ctx, res):
                 "UnmarshalJSON and UnmarshalParams with arrays of every length around n, and MarshalJSON; O: handler.Obj "
                 "over 0-5 keyed targets with objects over subsets of the keys, unknown keys, duplicates.  Compared: "
                 "Positional's error class, calls and captured arguments, error code, targets after the call.  "
+                "Ps: ONE Positional handler value serves a list of requests in order (rejected-after-partial-decoding "
+                "requests followed by valid requests with missing names / null elements / {} / absent params); Pc: ONE "
+                "Positional handler value called by 8 goroutines at once (barrier start, GOMAXPROCS 1..16) with 12 params "
+                "texts carrying pairwise different values; every request predicted by itself.  "
                 "non-trivial = distinct P line with params on an accepted function, A line with array params, O line with "
-                "object params, a line with at least one target")
+                "object params, a line with at least one target, Ps line after the first of its sequence, Pc line")
     if lines:
         res.samples = ([l[:400] for l in lines if l.startswith("P") and "\tC1:" in l][:2] +
                        [l[:400] for l in lines if l.startswith("A\t") and l.split("\t")[-1].startswith("1|")][:1] +
